@@ -15,7 +15,7 @@ func init() {
 		Level: "fault_enumeration",
 		Rule: "case i = (class i mod K, variation): K rejection classes (multiple content-types; Connect markers on a non-GET with or without content-type; unknown RPC path with and without unknown handler; " +
 			"REST path without route; REST route with another HTTP method; RPC path with a non-POST method; Connect GET on a method with side effects; stream type the client form cannot carry; " +
-			"bidi over HTTP/1.1; gRPC over HTTP/1.1; malformed timeout in each encoding; Content-Encoding on an enveloped protocol; unknown compression; unknown codec; REST-only target for a method without binding; " +
+			"bidi over HTTP/1.1; gRPC over HTTP/1.1; malformed timeout in each encoding; Content-Encoding on an enveloped protocol; unknown compression; unknown codec (foreign names and names that merely start like a registered one; for REST, media types other than application/json incl. json-patch+json, jsonl, json-seq); REST-only target for a method without binding; " +
 			"undecodable / truncated / oversized / undecompressable leading message when the request line needs it; a leading message that decodes but whose path-variable field does not fit the REST template; ResponseWriter without Flusher) x every client form that can express them x random configurations, " +
 			"plus exit-path classes (success, pass-through, unknown handler, mid-stream request error, mid-stream response error, handler panic). monitors: invocation counters over all handlers, the context the handler saw " +
 			"(inspected after ServeHTTP returned), after-return flags on the instrumented request body and ResponseWriter. oracle: <=1 invocation always, 0 service invocations for every rejection class, ctx.Err()!=nil after return, no I/O after return. " +
@@ -202,7 +202,16 @@ func runC18(c *Ctx, i int, r *rand.Rand) {
 				return
 			}
 		case "unknown-codec":
-			ct := map[ClientForm]string{FConnectUnary: "application/yaml", FConnectStream: "application/connect+yaml", FGRPC: "application/grpc+yaml", FGRPCWeb: "application/grpc-web+yaml"}[form]
+			// a codec nobody registered: either plainly foreign, or a name that merely starts like a registered one
+			name := pick(r, []string{"yaml", "yaml", "jsonx", "json5", "protox", "proto2", "json-seq", "JSONL"})
+			ct := map[ClientForm]string{FConnectUnary: "application/" + name, FConnectStream: "application/connect+" + name, FGRPC: "application/grpc+" + name, FGRPCWeb: "application/grpc-web+" + name}[form]
+			if form == FREST {
+				// REST speaks JSON only (bodies mapped to google.api.HttpBody take any type and are left out)
+				if req.Rest == nil || !req.Rest.HasBody || req.Binding == nil || isHTTPBodyBinding(req.Binding) {
+					return
+				}
+				ct = pick(r, []string{"application/yaml", "text/plain", "application/xml", "application/json-patch+json", "application/jsonl", "application/json-seq", "application/json5; charset=utf-8", "application/x-json", "text/json", "application/jsonx"})
+			}
 			if ct == "" {
 				return
 			}
